@@ -247,6 +247,8 @@ pub fn boundary_atoms() -> Vec<String> {
         ":".to_string(),
         "^".to_string(),
         "é".to_string(),
+        "/".to_string(),
+        "&".to_string(),
     ]
 }
 
